@@ -28,7 +28,7 @@ def kinds_of(shape):
     n, f, fp, pat = shape["n"], shape["fault"], shape["fpos"], shape["pat"]
     out = []
     for j in range(1, n + 1):
-        if f in "EPNMASCDW" and len(f) == 1 and j == fp:
+        if f in "EPNMASCDWR" and len(f) == 1 and j == fp:
             out.append(f)
         elif pat == "allU":
             out.append("U")
@@ -50,6 +50,8 @@ def file_text(shape, j, kinds, formatted=False):
     k = kinds[j - 1]
     decl = ""
     if j == shape["rp"]:
+        if shape.get("ign"):
+            decl += "mod a_gen;\n"
         for i in range(1, shape["n"] + 1):
             if i == j:
                 continue
@@ -69,6 +71,8 @@ def file_text(shape, j, kinds, formatted=False):
         return (f"#![rustfmt::skip]\n{decl}fn  k{j}( ){{}}\n").encode(), None
     if k == "E":
         return (pre + f"fn k{j}() {{ let = ; }}\nfn  z( ){{}}\n").encode(), None
+    if k == "R":
+        return (pre + f"fn k{j}() {{ let x = 1 === 2; }}\nfn  z( ){{}}\n").encode(), None
     if k == "P":
         return (pre + f"fn k{j}() {{\nfn  z( ){{}}\n").encode(), None
     if k == "N":
@@ -121,6 +125,13 @@ def materialise(base, sc):
                 for a in (a1, a2):
                     a.write_bytes(b"fn  amb( ){}\n")
                     extra.append((a, b"fn  amb( ){}\n"))
+        if shape.get("ign"):
+            g = d / "a_gen.rs"
+            g.write_bytes(b"struct  G { a: u8; b: u8 }\nfn  g( ){ let y = 1 === 2; }\n")
+            extra.append((g, g.read_bytes()))
+            t = d / "rustfmt.toml"
+            t.write_bytes(b'ignore = ["a_gen.rs"]\n')
+            extra.append((t, t.read_bytes()))
         # a decoy that no module declares
         dec = d / "decoy.rs"
         dec.write_bytes(b"fn  decoy( ){}\n")
@@ -295,7 +306,7 @@ def observe(sc, layout, code, out, err):
     for r, shape in enumerate(roots):
         kinds = kinds_of(shape)
         failing = shape["fault"] in ("badtoml", "vermismatch", "missing", "dir") or \
-            any(k in "EPNMACD" for k in kinds)
+            any(k in "EPNMACDR" for k in kinds)
         if failing:
             continue
         for j, k in enumerate(kinds, 1):
